@@ -58,14 +58,18 @@ func run(s *kernel.Sim, c *scen.Case) {
 	switch p.Shape {
 	case "noauth":
 		alevel = security.SecurityNever
-	case "claimtobe", "resumed":
+	case "claimtobe", "resumed", "negfail":
 		methods = []security.AuthMethod{security.AuthClaimToBe}
 	case "token":
 		methods = []security.AuthMethod{security.AuthToken}
 	}
 	cache := security.NewSessionCache()
 	mkc := func() *security.SecurityConfig {
-		cfg := hs.Cfg(alevel, security.SecurityRequired, methods, hs.AES, 60021)
+		cl := alevel
+		if p.Shape == "negfail" {
+			cl = security.SecurityNever // against a REQUIRED server: negotiation fails with an explicit denial
+		}
+		cfg := hs.Cfg(cl, security.SecurityRequired, methods, hs.AES, 60021)
 		cfg.SessionCache = cache
 		cfg.TrustDomain = tw.Issuer
 		cfg.Token = tw.Token(hs.Now()-10, hs.Now()+3600)
@@ -329,6 +333,15 @@ func run(s *kernel.Sim, c *scen.Case) {
 	switch {
 	case !stalled && (p.Mode == "background" || p.Mode == "never-cancelled" || p.Mode == "cancel-after"):
 		// fault-free: a context that is never cancelled adds no failure mode
+		if p.Shape == "negfail" {
+			// the honest outcome of this shape is a denial
+			if !out.returned || out.err == nil {
+				s.Violate("fault-free-run-failed", sig, fmt.Sprintf("%s: incompatible policies must end in an error return: returned=%v err=%v", where, out.returned, out.err))
+				return
+			}
+			s.Probe("fault-free-ok")
+			break
+		}
 		if !out.returned || out.err != nil {
 			s.Violate("fault-free-run-failed", sig, fmt.Sprintf("%s: returned=%v err=%v", where, out.returned, out.err))
 			return
@@ -390,6 +403,7 @@ var combos = []struct{ shape, role string }{
 	{"token", "client"}, {"token", "server"},
 	{"resumed", "client"}, {"resumed", "server"},
 	{"claimtobe", "connect"}, {"resumed", "connect"}, {"token", "serveconn"}, {"noauth", "serveconn"},
+	{"negfail", "server"}, {"negfail", "client"}, {"negfail", "serveconn"}, {"negfail", "connect"},
 }
 
 func gen(g *scen.Gen) {
